@@ -45,6 +45,7 @@ BottomRight(m) == IF OnRows(m) = {} THEN <<>> ELSE LET b == MaxOf(OnRows(m)) IN 
 \* string forms: variant -> <<set token, unset token, line separator>> as byte sequences
 Tokens(v) == CASE v = 0 -> << <<88>>, <<46>>, <<10>> >>            \* "X" "." "\n"
                [] v = 1 -> << <<88, 32>>, <<32, 32>>, <<10>> >>    \* "X " "  " "\n"   (String())
+               [] v = 3 -> << <<97, 98>>, <<97>>, <<10>> >>        \* "ab" "a" "\n": the unset token is a proper prefix of the set token
                [] OTHER -> << <<49>>, <<48>>, <<13, 10>> >>        \* "1" "0" "\r\n"
 RowString(row, tk) == Flatten([x \in 1..Len(row) |-> IF row[x] = 1 THEN tk[1] ELSE tk[2]], 1, <<>>) \o tk[3]
 MString(m, v) == Flatten([y \in 1..H(m) |-> RowString(m[y], Tokens(v))], 1, <<>>)
@@ -118,6 +119,7 @@ AStep(s, e) ==
     [] e.op = "appendbit" -> ARes(Append(s, a[1]), <<>>, 0)
     [] e.op = "appendbits" -> IF a[3] < 0 \/ a[3] > 32 THEN ARes(s, <<>>, 1) ELSE ARes(s \o ValueBits(a[1], a[2], a[3]), <<>>, 0)
     [] e.op = "appendarr" -> ARes(s \o UnChunks(e.b[1], a[1]), <<>>, 0)
+    [] e.op = "appendself" -> ARes(s \o s, <<>>, 0)                                   \* a.AppendBitArray(a)
     [] e.op = "axor"    -> IF a[1] # Len(s) THEN ARes(s, <<>>, 1) ELSE ARes(AXor(s, UnChunks(e.b[1], a[1])), <<>>, 0)
     [] e.op = "reverse" -> ARes(AReverse(s), <<>>, 0)
     [] e.op = "setbulk" -> ARes(ASetBulk(s, a[1], a[2], a[3]), <<>>, 0)
@@ -129,6 +131,6 @@ AStep(s, e) ==
     [] e.op = "sizes"   -> ARes(s, <<Len(s), (Len(s) + 7) \div 8>>, 0)
     [] e.op = "astring" -> ARes(s, AString(s), 0)
 
-AOps == {"anew", "aempty", "aset", "aflip", "aclear", "setrange", "appendbit", "appendbits", "appendarr", "axor",
+AOps == {"anew", "aempty", "aset", "aflip", "aclear", "setrange", "appendbit", "appendbits", "appendarr", "appendself", "axor",
          "reverse", "setbulk", "aget", "nextset", "nextunset", "isrange", "tobytes", "sizes", "astring"}
 =============================================================================
